@@ -16,7 +16,7 @@ C09 repair of F09, for all histories); for a file-backed one it is the max-merge
 the pending layer, which learning keeps equal to "last write wins" because a learned frequency is never
 below the merged frequency it was computed from (`learn_monotone`).
 -/
-namespace Chewing
+namespace Chewing.Learn
 open Gen.Learn
 
 /-- key of the user dictionary: syllable codes and phrase text -/
@@ -227,6 +227,48 @@ def trimStep (trimmed : List Path) (cand : Path) : List Path :=
 /-- `ChewingEngine::trim_paths` -/
 def trimPaths (paths : List Path) : List Path := paths.foldl trimStep []
 
+/-! ### `shortest_path` (breadth-first search over the interval graph) -/
+
+/-- `parent: Vec<Option<&PossibleInterval>>` as an association list node ↦ edge -/
+abbrev Parents := List (Nat × PInterval)
+
+def Parents.get? (p : Parents) (node : Nat) : Option PInterval :=
+  (p.find? (fun e => decide (e.1 = node))).map (·.2)
+
+/-- the inner `for edge in next_edges` loop: new parent table, new queue, and whether `break 'bfs` fired.
+    `removed s e` = `removed_edges[s * len + e - 1]` -/
+def scanEdges (removed : Nat → Nat → Bool) (len : Nat) : List PInterval → Parents → List Nat → Parents × List Nat × Bool
+  | [], parent, queue => (parent, queue, false)
+  | e :: es, parent, queue =>
+    if removed e.start e.stop then scanEdges removed len es parent queue
+    else
+      let parent' := if (parent.get? e.stop).isNone then (e.stop, e) :: parent else parent
+      let queue' := if (parent.get? e.stop).isNone then queue ++ [e.stop] else queue
+      if e.stop = len then (parent', queue', true) else scanEdges removed len es parent' queue'
+
+/-- the `'bfs: while !queue.is_empty()` loop (`graph.get(node)` is `None` for the sink) -/
+def bfs (graph : List (List PInterval)) (removed : Nat → Nat → Bool) (len : Nat) : Nat → List Nat → Parents → Parents
+  | 0, _, parent => parent
+  | _ + 1, [], parent => parent
+  | fuel + 1, node :: queue, parent =>
+    let r := scanEdges removed len (graph[node]?.getD []) parent queue
+    if r.2.2 then r.1 else bfs graph removed len fuel r.2.1 r.1
+
+/-- `while node != source { let interval = parent[node]?; node = interval.start; path.push(interval) }; path.reverse()` -/
+def walkBack (parent : Parents) (source : Nat) : Nat → Nat → Path → Option Path
+  | 0, _, _ => none
+  | fuel + 1, node, acc =>
+    if node = source then some acc
+    else
+      match parent.get? node with
+      | none => none
+      | some e => walkBack parent source fuel e.start (e :: acc)
+
+/-- `ChewingEngine::shortest_path(graph, removed_edges, source, len)`; fuel `len + 2` suffices for both loops
+    (every node is queued at most once; every step back strictly decreases the node) -/
+def shortestPath (graph : List (List PInterval)) (removed : Nat → Nat → Bool) (source len : Nat) : Option Path :=
+  walkBack (bfs graph removed len (len + 2) [source] []) source (len + 2) len []
+
 open Gen.TopScore in
 /-- `PossiblePath::score` (as an integer; the `i32` conversions are not modelled here) -/
 def pathScore (p : Path) : Int :=
@@ -256,4 +298,4 @@ def firstConversion (kpaths : List Path) : Option (List Interval) :=
   | [] => none
   | p :: _ => some (p.map PInterval.toInterval)
 
-end Chewing
+end Chewing.Learn
